@@ -220,8 +220,8 @@ def perms(names):
 
 
 # =========================================================================== feature matrix M1
-P_KINDS = ('sleep', 'raise', 'sync_raise', 'sync_ret', 'ff', 'ff_raise', 'await', 'await_then', 'sleep_ff', 'ff_await')
-C_KINDS = ('ret', 'sleep', 'raise', 'two', 'awaitG')
+P_KINDS = ('sleep', 'raise', 'sync_raise', 'sync_ret', 'ff', 'ff_raise', 'await', 'await_then', 'sleep_ff', 'ff_await', 'ff_awaitL_awaitC', 'raise_chained')
+C_KINDS = ('ret', 'sleep', 'raise', 'two', 'awaitG', 'ffG')
 WILD = ('none', 'A', 'B-only')
 MAINS = ('await', 'redispatch')
 TIMEOUTS = ('60', 'None')
@@ -241,6 +241,9 @@ def _p_script(kind, i):
         'await_then': ([['dispawait', 'A', 'C', 'C_{inv}'], ['disp', 'A', 'L', 'L_{inv}'], ['sleep', dv], ['ret', r]], {}),
         'sleep_ff': ([['sleep', dv], ['disp', 'A', 'C', 'C_{inv}'], ['read_bus'], ['ret', r]], {}),
         'ff_await': ([['sleep', dv], ['disp', 'A', 'C', 'C_{inv}'], ['disp', 'A', 'L', 'L_{inv}'], ['await', 'C_{inv}'], ['ret', r]], {}),
+        # dispatch C without awaiting, await another event (which makes the inline drain process C first), only then await C
+        'ff_awaitL_awaitC': ([['disp', 'A', 'C', 'C_{inv}'], ['dispawait', 'A', 'L', 'L_{inv}'], ['sleep', dv], ['await', 'C_{inv}'], ['ret', r]], {}),
+        'raise_chained': ([['sleep', dv], ['raise_chained', 'ValueError']], {}),
     }[kind]
 
 
@@ -262,7 +265,12 @@ def matrix1(par, ph, ch, wild, mainkind, timeout):
         handlers.append(['A', 'C', 'hC1', [['raise', 'ValueError']], {'sync': True}])
     elif ch == 'awaitG':
         handlers.append(['A', 'C', 'hC0', [['dispawait', 'A', 'G', 'G_{inv}'], ['sleep', 'd2'], ['ret', 'c']]])
-    handlers.append(['A', 'G', 'hG0', [['ret', 'g']], {'sync': True}])
+    elif ch == 'ffG':
+        handlers.append(['A', 'C', 'hC0', [['disp', 'A', 'G', 'G_{inv}'], ['ret', 'c']]])
+    if ch == 'ffG':
+        handlers.append(['A', 'G', 'hG0', [['sleep', 'd2'], ['ret', 'g']]])
+    else:
+        handlers.append(['A', 'G', 'hG0', [['ret', 'g']], {'sync': True}])
     handlers.append(['A', 'L', 'hL0', [['ret', 'l']], {'sync': True}])
     handlers.append(['A', 'X', 'hX0', [['ret', 'x']]])
     buses = ['A']
@@ -332,7 +340,8 @@ def pairwise(domains, must=()):
 
 PH_PAIRS = (('sleep', 'sleep'), ('raise', 'sleep'), ('sleep', 'raise'), ('sync_raise', 'sleep'), ('await', 'sleep'), ('await', 'raise'),
             ('await_then', 'sleep'), ('await_then', 'sync_ret'), ('ff', 'sleep'), ('ff_raise', 'sleep'), ('sleep_ff', 'sleep_ff'),
-            ('sleep_ff', 'raise'), ('await', 'sleep_ff'), ('ff', 'ff_raise'), ('raise', 'sync_ret'), ('await_then', 'raise'), ('ff_await', 'sleep'))
+            ('sleep_ff', 'raise'), ('await', 'sleep_ff'), ('ff', 'ff_raise'), ('raise', 'sync_ret'), ('await_then', 'raise'), ('ff_await', 'sleep'),
+            ('ff_awaitL_awaitC', 'sleep'), ('raise_chained', 'sleep'))
 
 
 def matrix1_rows(tier):
@@ -348,6 +357,9 @@ def matrix1_rows(tier):
         (True, ('await', 'sleep'), 'two', 'none', 'await', '60'),
         (False, ('ff_await', 'sleep'), 'ret', 'none', 'await', '60'),
         (False, ('ff_await', 'sleep'), 'sleep', 'A', 'await', '60'),
+        (False, ('ff_awaitL_awaitC', 'sleep'), 'ffG', 'none', 'await', '60'),
+        (False, ('raise_chained', 'sleep'), 'ret', 'none', 'await', '60'),
+        (False, ('await', 'sleep'), 'ffG', 'none', 'await', '60'),
     ]
     rows = pairwise(doms, must)
     if tier == 'thorough':
@@ -609,3 +621,52 @@ def seq_program(idx, sym=('d1', 'd2', 't1')):
 
 def matrix3_rows(tier):
     return list(range(48 if tier == 'quick' else 240))
+
+
+
+def par_parent_serial_child(order=('A', 'B')):
+    """parallel bus A: one handler awaits a child on serial bus B (the child has a slow first and a second handler), a sibling
+    handler raises meanwhile."""
+    handlers = [['A', 'P', 'hA0', [['dispawait', 'B', 'C', 'C1'], ['ret', 'a0']]],
+                ['A', 'P', 'hA1', [['sleep', 'd1'], ['raise', 'ValueError']]],
+                ['B', 'C', 'hC0', [['sleep', 'd2'], ['ret', 'c0']]], ['B', 'C', 'hC1', [['ret', 'c1']]],
+                ['B', 'X', 'hX', [['ret', 'x']]]]
+    main = [['root', 'B', 'X', 'X0'], ['idle', 'B'], ['root', 'A', 'P', 'P1'], ['await', 'P1'], ['idle', 'A'], ['idle', 'B'], ['obs_all', 'end']]
+    return dict(buses=['A', 'B'], order=list(order), parallel=['A'], reals={'d1': ['0', '3/10'], 'd2': ['0', '3/10']}, handlers=handlers, main=main, horizon=6)
+
+
+def fw_late_await(order=('A', 'B')):
+    """A forwards to B; a handler of A registered after the forward awaits a child, so the forwarded event is processed on B
+    (inline) while that handler of A is still running: the event is in flight on two buses at once."""
+    cfg = forward_chain(2, topo='chain', order=order)
+    cfg['late_handlers'] = [['A', '*', 'hLate', [['dispawait', 'A', 'C', 'C_{inv}'], ['sleep', 'd1'], ['ret', 'late']]]]
+    cfg['handlers'] += [['A', 'C', 'hCA', [['ret', 'c']], {'sync': True}], ['B', 'C', 'hCB', [['ret', 'c']], {'sync': True}]]
+    return cfg
+
+
+def fw_deep4():
+    """A forwards everything to B; a chain of nested awaited children four levels deep on A, every level passing the forward."""
+    handlers = [['A', 'P', 'hP', [['dispawait', 'A', 'C', 'C1'], ['ret', 'p']]], ['A', 'C', 'hC', [['dispawait', 'A', 'G', 'G1'], ['ret', 'c']]],
+                ['A', 'G', 'hG', [['dispawait', 'A', 'L', 'L1'], ['ret', 'g']]], ['A', 'L', 'hL', [['sleep', 'd1'], ['ret', 'l']]],
+                ['B', 'P', 'hPB', [['ret', 'pb']]], ['B', 'C', 'hCB', [['ret', 'cb']]], ['B', 'G', 'hGB', [['ret', 'gb']]],
+                ['B', 'L', 'hLB', [['sleep', 'd2'], ['ret', 'lb']]]]
+    main = [['root', 'B', 'X', 'X0'], ['idle', 'B'], ['root', 'A', 'P', 'P1'], ['await', 'P1'], ['idle', 'A'], ['idle', 'B'], ['obs_all', 'end']]
+    return dict(buses=['A', 'B'], order=['A', 'B'], reals={'d1': ['0', '1/5'], 'd2': ['0', '1/5']}, handlers=handlers + [['B', 'X', 'hXB', [['ret', 'x']]]],
+                forwards=[['A', 'B']], main=main, horizon=6)
+
+
+def three_bus_stop(order=('A', 'B', 'C')):
+    """A is in a slow handler; B has dequeued an event and waits for the global lock; B is stopped at t_s; C has an event queued."""
+    handlers = [['A', 'P', 'hA', [['sleep', 'd1'], ['ret', 'a']]], ['B', 'X', 'hB', [['sleep', 'd2'], ['ret', 'b']]], ['C', 'L', 'hC', [['sleep', 'd2'], ['ret', 'c']]]]
+    main = [['root', 'A', 'P', 'P1'], ['sleep', '1/20'], ['root', 'B', 'X', 'X1'], ['root', 'C', 'L', 'L1'], ['sleep', 't_s'], ['stop', 'B'], ['idle', 'A'], ['idle', 'C'],
+            ['root', 'A', 'P', 'P2'], ['root', 'C', 'L', 'L2'], ['idle', 'A'], ['idle', 'C'], ['obs_all', 'end']]
+    return dict(buses=['A', 'B', 'C'], order=list(order), reals={'d1': ['1/10', '2/5'], 'd2': ['0', '1/5'], 't_s': ['0', '2/5']}, handlers=handlers, main=main, horizon=7,
+                rejections_expected=True)
+
+
+def mixed_bus_classes(first='A'):
+    """a plain bubus.EventBus (B) next to an application subclass of EventBus (A); which of them processes an event first is varied."""
+    handlers = [['A', 'P', 'hA', [['sleep', 'd1'], ['ret', 'a']]], ['B', 'X', 'hB', [['sleep', 'd2'], ['ret', 'b']]]]
+    warm = [['root', 'A', 'P', 'P0'], ['idle', 'A'], ['root', 'B', 'X', 'X0'], ['idle', 'B']] if first == 'A' else [['root', 'B', 'X', 'X0'], ['idle', 'B'], ['root', 'A', 'P', 'P0'], ['idle', 'A']]
+    main = warm + [['root', 'A', 'P', 'P1'], ['sleep', 't1'], ['root', 'B', 'X', 'X1'], ['root', 'A', 'P', 'P2'], ['idle', 'A'], ['idle', 'B'], ['obs_all', 'end']]
+    return dict(buses=['A', 'B'], order=['A', 'B'], plain_buses=['B'], reals={'d1': ['0', '3/10'], 'd2': ['0', '3/10'], 't1': ['0', '3/10']}, handlers=handlers, main=main, horizon=7)
